@@ -308,6 +308,13 @@ def build_rows(c, kind, seed, cost=None, fixed=False, salt=''):
           continue
         rows.append({'date': day, 'geo': 90 + j, 'group': NOGROUP, 'period': period,
                      'response': rng.randint(0, 9), 'cost': rng.randint(0, 2) if free_cost else 0})
+  if unassigned and not partial:
+    # the unassigned geos have a longer history: rows (labelled pre-period) on two dates before the first date of the
+    # assigned groups.  Nothing about the two groups changes.
+    for day in (-2, -1):
+      for j in range(2):
+        rows.append({'date': day, 'geo': 90 + j, 'group': NOGROUP, 'period': PRE,
+                     'response': rng.randint(0, 9), 'cost': rng.randint(0, 2) if free_cost else 0})
   if shuffled:
     rng.shuffle(rows)
   meta = {'kind': kind, 'salt': salt, 'n_geos': dict(ng), 'extra_dates': [d for d, s in enumerate(slots) if s[1] is None],
